@@ -59,6 +59,8 @@ def snapshot_expr(e, p0: Point) -> tuple:
 
 def check_cases(cases: list[dict], rep: Report, known: dict) -> None:
     for c in cases:
+        if rep.stop():
+            break
         pool = H.build_pool(c["pool"])
         names = sorted(set().union(*(e._variable_names for e in pool))) or ["x"]
         p0 = Point(**{n: 1.25 + 0.5 * i for i, n in enumerate(names)})
